@@ -216,11 +216,14 @@ func consumingUses(v ssa.Value, depth int, seen map[ssa.Value]bool) []ssa.Instru
 }
 
 // usedAsSizeOrIndex: the converted value reaches a comparison, index, slice bound or allocation size.
-func usedAsSizeOrIndex(v ssa.Value) bool {
+func usedAsSizeOrIndex(v ssa.Value) bool { return usedAsSizeOrIndexRec(v, map[ssa.Value]bool{}) }
+
+func usedAsSizeOrIndexRec(v ssa.Value, seen map[ssa.Value]bool) bool {
 	refs := v.Referrers()
-	if refs == nil {
+	if refs == nil || seen[v] {
 		return false
 	}
+	seen[v] = true
 	for _, r := range *refs {
 		switch r := r.(type) {
 		case *ssa.BinOp, *ssa.IndexAddr, *ssa.Slice, *ssa.MakeSlice, *ssa.MakeMap:
@@ -229,7 +232,7 @@ func usedAsSizeOrIndex(v ssa.Value) bool {
 			_ = r
 			return true
 		case *ssa.Phi:
-			if usedAsSizeOrIndex(r) {
+			if usedAsSizeOrIndexRec(r, seen) {
 				return true
 			}
 		}
